@@ -23,6 +23,7 @@ pub struct Stats {
     pub packs_stored_raw: u64,
     pub full_packs: u64,
     pub placeholder_packs: u64,
+    pub full_raw_group_packs: u64,
     pub segments: u64,
     pub segments_ref: u64,
     pub segments_delta: u64,
@@ -512,6 +513,9 @@ impl<'a> Groups<'a> {
             }
             if entries.len() == PACK {
                 stats.full_packs += 1;
+                if g < RAW_GROUPS {
+                    stats.full_raw_group_packs += 1;
+                }
             }
             if idx + 1 < st.parts.len() && entries.len() != PACK {
                 return err(format!("pack: pack {} of {} is not the last one but has {} entries", idx, name, entries.len()));
